@@ -18,7 +18,8 @@
          delete                                   vbi_decoder_delete + allocation audit                     */
 #include "hutil.h"
 #include "src/libzvbi.h"
-extern size_t __sanitizer_get_current_allocated_bytes(void);
+extern size_t __sanitizer_get_current_allocated_bytes(void) __attribute__((weak));
+static size_t heap_now(void) { return __sanitizer_get_current_allocated_bytes ? __sanitizer_get_current_allocated_bytes() : 0; }
 
 static vbi_decoder *dec;
 static vbi_sliced   sl[64];
@@ -66,7 +67,7 @@ static void kill_all(void)
 static void fresh(void)
 {
 	kill_all();
-	heap0 = __sanitizer_get_current_allocated_bytes();
+	heap0 = heap_now();
 	dec = vbi_decoder_new();
 	pg = calloc(1, sizeof *pg);
 	if (!dec || !pg) { fprintf(stderr, "no decoder\n"); exit(3); }
@@ -157,7 +158,7 @@ int main(void)
 		} else if (H_IS(0, "cached") && hexnum(1, &a) && hexnum(2, &b)) {
 			sink += vbi_is_cached(dec, (int) a, (int) b); printf("ok\n");
 		} else if (H_IS(0, "hisub") && hexnum(1, &a)) {
-			sink += vbi_cache_hi_subno(dec, (int) a); printf("ok\n");
+			if (a >= 0x100 && a <= 0x8FF) sink += vbi_cache_hi_subno(dec, (int) a); printf("ok\n");
 		} else if (H_IS(0, "resolve")) {
 			if (pg_valid) {
 				int row, col; vbi_link ld;
@@ -217,8 +218,8 @@ int main(void)
 				size_t n = bpp ? (size_t) d * (teletext ? 12 : 16) * e * (teletext ? 10 : 26) * bpp : 1;
 				uint8_t *cv = malloc(n);
 				memset(cv, 0, n);
-				if (teletext) vbi_draw_vt_page_region(pg, (vbi_pixfmt) a, cv, -1, (int) b, (int) c, (int) d, (int) e, 1, 1);
-				else vbi_draw_cc_page_region(pg, (vbi_pixfmt) a, cv, -1, (int) b, (int) c, (int) d, (int) e);
+				if (teletext) vbi_draw_vt_page_region(pg, (vbi_pixfmt) a, cv, (int) d * 12 * (bpp ? bpp : 1), (int) b, (int) c, (int) d, (int) e, 1, 1);
+				else vbi_draw_cc_page_region(pg, (vbi_pixfmt) a, cv, (int) d * 16 * (bpp ? bpp : 1), (int) b, (int) c, (int) d, (int) e);
 				touch(cv, n); free(cv);
 			}
 			printf("ok\n");
@@ -254,7 +255,7 @@ int main(void)
 		} else if (H_IS(0, "delete")) {
 			size_t now;
 			kill_all();
-			now = __sanitizer_get_current_allocated_bytes();
+			now = heap_now();
 			if (now <= heap0) printf("ok freed\n");
 			else printf("ok leak %zu\n", now - heap0);
 		} else printf("rej op\n");
